@@ -4,7 +4,8 @@ cd /verif
 ids=${@:-$(ls seeded)}
 for id in $ids; do
   [ -f seeded/$id/patch.diff ] || continue
-  prop=${id:0:3}
+  # the check(s) recorded as catching this change (meta.json caught_by), else the check of its own property
+  prop=$(python3 -c "import json,sys; m=json.load(open('/verif/seeded/$id/meta.json')); print(' '.join(m.get('caught_by') or ['${id:0:3}']))" 2>/dev/null || echo ${id:0:3})
   if ! git -C /repo apply --check /verif/seeded/$id/patch.diff 2>/dev/null; then echo "$id: patch does not apply to the current tree (see meta.json)"; continue; fi
   r=$(python3 -m vf.seedtest /verif/seeded/$id/patch.diff $prop 2>&1 | tail -1)
   echo "$id: $r"
